@@ -19,6 +19,7 @@ func (ex *Exec) callBuiltin(fr *frame, name string, args []Value, c *ssa.CallCom
 			if x == nil {
 				return BV(0, 64)
 			}
+			ex.fpMap(x, false) // the length is a read of the map (interleaving reduction footprint)
 			return BV(uint64(len(x.Entries)), 64)
 		case *ChanVal:
 			if x == nil {
@@ -77,7 +78,7 @@ func (ex *Exec) callBuiltin(fr *frame, name string, args []Value, c *ssa.CallCom
 			n = dst.Len
 		}
 		for i := 0; i < n; i++ {
-			ex.store(Ptr{Obj: dst.Arr, Path: []int{dst.Off + i}}, src[i])
+			ex.store(dst.elemPtr(i), src[i])
 		}
 		return BV(uint64(n), 64)
 	case "delete":
@@ -175,7 +176,7 @@ func (ex *Exec) callBuiltin(fr *frame, name string, args []Value, c *ssa.CallCom
 		if s.Arr == nil {
 			return Ptr{}
 		}
-		return Ptr{Obj: s.Arr, Path: []int{s.Off}}
+		return s.elemPtr(0)
 	case "Slice": // unsafe.Slice(ptr, len)
 		p := args[0].(Ptr)
 		n := int(ex.Concretize(args[1].(*Term)))
@@ -185,7 +186,7 @@ func (ex *Exec) callBuiltin(fr *frame, name string, args []Value, c *ssa.CallCom
 			}
 			return SliceVal{}
 		}
-		return SliceVal{Arr: p.Obj, Off: p.Path[0], Len: n, Cap: n}
+		return SliceVal{Arr: p.Obj, Off: p.Path[len(p.Path)-1], Len: n, Cap: n, Pre: append([]int{}, p.Path[:len(p.Path)-1]...)}
 	case "clear":
 		switch x := args[0].(type) {
 		case *MapVal:
@@ -196,7 +197,7 @@ func (ex *Exec) callBuiltin(fr *frame, name string, args []Value, c *ssa.CallCom
 		case SliceVal:
 			et := c.Args[0].Type().Underlying().(*types.Slice).Elem()
 			for i := 0; i < x.Len; i++ {
-				ex.store(Ptr{Obj: x.Arr, Path: []int{x.Off + i}}, Zero(et))
+				ex.store(x.elemPtr(i), Zero(et))
 			}
 		}
 		return nil
@@ -212,9 +213,9 @@ func (ex *Exec) appendSlice(s SliceVal, add []Value, et types.Type) SliceVal {
 	need := s.Len + len(add)
 	if need <= s.Cap && s.Arr != nil {
 		for i, v := range add {
-			ex.store(Ptr{Obj: s.Arr, Path: []int{s.Off + s.Len + i}}, v)
+			ex.store(s.elemPtr(s.Len+i), v)
 		}
-		return SliceVal{Arr: s.Arr, Off: s.Off, Len: need, Cap: s.Cap}
+		return SliceVal{Arr: s.Arr, Off: s.Off, Len: need, Cap: s.Cap, Pre: s.Pre}
 	}
 	newCap := need
 	if s.Cap > 0 {
@@ -445,8 +446,11 @@ func (ex *Exec) chanRecv(c *ChanVal) (Value, bool) {
 	if c.Closed {
 		return Zero(c.Elem), false
 	}
-	ex.internal("blocking channel receive in sequential executor")
-	return nil, false
+	where := ""
+	if ex.curFrame != nil {
+		where = ex.curFrame.fn.String()
+	}
+	panic(&hangAbort{Msg: "receive from a channel nothing will ever send on or close", Where: where})
 }
 
 func (ex *Exec) chanReadyRecv(c *ChanVal) bool {
@@ -486,7 +490,13 @@ func (ex *Exec) selectOp(fr *frame, in *ssa.Select) Value {
 			res[0], res[1] = BV(^uint64(0), 64), False
 			return res
 		}
-		ex.internal("select blocks forever in sequential executor")
+		// nothing in the scenario can ever make a case ready (the harness is the whole world):
+		// the program hangs here. Reported as a Go-level fatal; only a native hang confirms it.
+		where := ""
+		if ex.curFrame != nil {
+			where = ex.curFrame.fn.String()
+		}
+		panic(&hangAbort{Msg: "select with no case that can ever become ready", Where: where})
 	}
 	pick := ready[0]
 	if len(ready) > 1 {
